@@ -317,6 +317,38 @@ def check_walk(ctx, F):
                     bad = bad or "a `return` inside the loop is not under the rank filter"
                 if y.get("k") == "asg" and strip(y["lhs"]).get("k") == "var" and strip(y["lhs"]).get("n") in fallback and id(y) not in inside:
                     bad = bad or "the fallback `%s` (returned when the cursor overshoots) is updated outside the rank filter: it can name a sub-state of lower rank" % strip(y["lhs"]).get("n")
+            # ... and only a candidate with a non-empty interval (utility > 0) may become the fallback: "never one with zero utility"
+            def guards_of(node, target, acc):
+                if id(node) == id(target):
+                    return acc
+                if isinstance(node, dict):
+                    for k, v in node.items():
+                        if isinstance(v, (dict, list)):
+                            extra = []
+                            if node.get("k") == "if" and k == "t":
+                                extra = [(node["c"], True)]
+                            elif node.get("k") == "if" and k == "e":
+                                extra = [(node["c"], False)]
+                            r = guards_of(v, target, acc + extra)
+                            if r is not None:
+                                return r
+                elif isinstance(node, list):
+                    for v in node:
+                        r = guards_of(v, target, acc)
+                        if r is not None:
+                            return r
+                return None
+            for y in walk(loop["b"]):
+                if y.get("k") == "asg" and strip(y["lhs"]).get("k") == "var" and strip(y["lhs"]).get("n") in fallback:
+                    gs = guards_of(loop["b"], y, []) or []
+                    pos = False
+                    for c, pol in gs:
+                        t = re.sub(r"\.0*f?\b|f\b", "", _expr_txt(strip(c)).replace(" ", ""))
+                        if (pol and t in ("utilities[i]>0", "0<utilities[i]", "utilities[i]!=0")) or (not pol and t in ("utilities[i]<=0", "0>=utilities[i]", "utilities[i]==0")):
+                            pos = True
+                    if not pos:
+                        bad = bad or "the fallback `%s` can be a candidate of utility 0 (its update is not guarded by utilities[i] > 0): when the cursor overshoots, a " \
+                                     "sub-state with an empty interval is activated" % strip(y["lhs"]).get("n")
         # cursor = random * sum with random = rng.next()
         defs = {}
         for y in walk(b["body"]):
